@@ -4,6 +4,7 @@
    (as_returned is the identity since the fix of D15.) *)
 From Coq Require Import List NArith Bool.
 From I18n Require Import Lib.Outcome Model.MoParser Spec.MoFormat Proofs.MoStrings Proofs.MoParser Proofs.MoCorollaries Proofs.MoCharset.
+From I18n Require Import Model.MoParserPy Generated.MoParserSrc Proofs.MoParserSrc.
 Import ListNotations.
 Local Open Scope N_scope.
 
@@ -58,3 +59,38 @@ Example C08_ex_parse : mo_parse (fun _ => true) None ex_file =
             {| e_ctxt := Some [99]; e_id := [97]; e_plural := None; e_strs := [[115]] |} ];
         o_charset := Some utf8_name; o_hidden := false |}.
 Proof. vm_compute. reflexivity. Qed.
+
+(* ------------------------------------------------------------------ *)
+(* Source tie (notes/SRC4.md).  Generated/MoParserSrc.v is the translation of Parser._read_ints / _parse_entry / _parse of the
+   working tree's lib/moparser.py, made by tools/gen/gen_moparser_src.py at the start of every check.  The theorems say that
+   the translation equals the model the theorems above are about, for all arguments (no hypotheses); an edit of that code
+   changes the generated text and they no longer compile.  Vocabulary: Model/MoParserPy.v; of_out / entry_result / load_embed
+   / parse_view (Proofs/MoParserSrc.v) write the model's results in that vocabulary; re_search_m / re_group_m instantiate
+   the re.search oracle with the model's find_charset at the pattern of the code. *)
+Theorem C08_source_tie_constants : src_little_endian_magic = le_magic /\ src_big_endian_magic = be_magic.
+Proof. exact src_magic_eq. Qed.
+Print Assumptions C08_source_tie_constants.
+
+Theorem C08_source_tie_read_ints : forall be f at_,
+  src_read_ints f (endian_str be) at_ 1 = of_out (fun x => [x]) (read_int be f at_) /\
+  src_read_ints f (endian_str be) at_ 2 = of_out (fun p => [fst p; snd p]) (read_int2 be f at_).
+Proof. exact src_read_ints_eq. Qed.
+Print Assumptions C08_source_tie_read_ints.
+
+(* _parse_entry = parse_entry followed by decoding the strings of the entry in the order of the code *)
+Theorem C08_source_tie_parse_entry : forall asc dec be f i enc last mo so,
+  src_parse_entry asc dec re_search_m re_group_m f (endian_str be) enc last i mo so =
+  entry_result dec (parse_entry asc be f (i =? 0) enc last mo so).
+Proof. exact src_parse_entry_eq. Qed.
+Print Assumptions C08_source_tie_parse_entry.
+
+(* _parse (header, loop over range(n_strings) without fuel) = mo_load: charset, hidden flag, entries, or the exception *)
+Theorem C08_source_tie_parse : forall asc dec enc0 f,
+  parse_view (src_parse asc dec re_search_m re_group_m f enc0 []) = load_embed (mo_load asc dec enc0 f).
+Proof. exact src_parse_eq. Qed.
+Print Assumptions C08_source_tie_parse.
+
+Example C08_source_tie_ex :
+  parse_view (src_parse (fun _ => true) (fun _ _ => true) re_search_m re_group_m ex_file None []) =
+  MRet (Some utf8_name, false, map entry_embed ex_catalog).
+Proof. exact src_parse_ex. Qed.
